@@ -569,6 +569,8 @@ def _refill_rules(col, cx, r, sfx):
             t = f[1]
             if f[0] in ("eq", "ne") and isinstance(t, tuple) and t and t[0] == "call" and "Interrupted" in repr(t) and any(s[0] == "call" and str(s[1]).endswith("Error::kind") for s in subterms(t)):
                 tested = (f[0] == "eq") == bool(f[2])
+                if str(t[1]).endswith("::ne"):
+                    tested = not tested   # `kind != Interrupted` true means it is NOT the transient error
             # match on the kind's discriminant
             if f[0] in ("eq", "ne") and isinstance(t, tuple) and t and t[0] == "discr" and t in I.discr_names:
                 nm = I.discr_names[t]
